@@ -387,9 +387,12 @@ def rule_sonar_component(ctx, rep):
 
 READER_MODULES = ("codemodder.sarifs", "codemodder.semgrep", "codemodder.codeql", "core_codemods.sonar.api", "core_codemods.sonar.results",
                   "core_codemods.defectdojo.api", "core_codemods.defectdojo.results", "core_codemods.semgrep.api", "codemodder.codemodder")
+# the same two clauses hold for the loops that read the project's dependency manifests (one unreadable manifest must not hide the others)
+MANIFEST_MODULES = ("codemodder.project_analysis.file_parsers.base_parser", "codemodder.project_analysis.python_repo_manager")
 
 
-def rule_every_input_read(ctx, rep):
+def rule_every_input_read(ctx, rep, modules=None, min_loops: int = 3):
+    modules = modules or READER_MODULES
     rep.rule(
         "R-EVERY-INPUT-READ",
         "in the result readers and accumulation loops: (a) a loop that merges per-file / per-run findings into an accumulator (`acc |= x`, "
@@ -400,7 +403,7 @@ def rule_every_input_read(ctx, rep):
     )
     n = 0
     for fn in ctx.prog.live_functions():
-        if fn.module.name not in READER_MODULES:
+        if fn.module.name not in modules:
             continue
         pm = ctx.parents(fn)
         for lp in walk_no_nested(fn.node):
@@ -458,8 +461,8 @@ def rule_every_input_read(ctx, rep):
             rep.check("R-EVERY-INPUT-READ", fn.qname, fn.loc(encl[0]) if encl else fn.loc(lp), encl is None, f"loop over {unparse(lp.iter)[:30]}:handler-scope",
                       f"`except {unparse(encl[1].type) if encl and encl[1].type is not None else ''}` swallows errors around the whole loop over `{unparse(lp.iter)[:40]}`: "
                       "one element the reader cannot handle ends the loop and every later element is silently dropped")
-    if n < 3:
-        raise AnalysisError(f"only {n} accumulating loops found in the result readers")
+    if n < min_loops:
+        raise AnalysisError(f"only {n} accumulating loops found in the result / manifest readers")
 
 
 LAZY_CALLS = {"map", "filter", "zip", "iter", "chain", "reversed", "enumerate", "islice", "from_iterable", "finditer", "iglob", "rglob", "glob", "scandir", "iterdir", "takewhile", "dropwhile"}
